@@ -256,11 +256,25 @@ def _py_start_reach(code, offset):
     return None
 
 
+def _jump(code, offset, dest):
+    """Backward/forward jumps inside the tool's own code: loops without calls still make progress visible (M2)."""
+    STATE["steps"] += 1
+    b = STATE["budget"]
+    if b is not None and STATE["steps"] > b:
+        STATE["budget"] = None
+        raise StepBudgetExceeded(f"more than {b} steps (function starts + jumps in tool code)")
+
+
 def _py_start(code, offset):
     STATE["steps"] += 1
     t = _code_is_tool.get(code)
     if t is None:
         t = _code_is_tool[code] = bool(TOOL_DIR) and code.co_filename.startswith(TOOL_DIR)
+        if t:
+            try:
+                sys.monitoring.set_local_events(3, code, sys.monitoring.events.JUMP)
+            except Exception:  # noqa: BLE001, S110
+                pass
     if t:
         r = STATE["reach"]
         q = code.co_qualname
@@ -277,6 +291,8 @@ def _install_step_monitor(mon, mode="all"):
         tool = 3
         m.use_tool_id(tool, "vsds")
         m.register_callback(tool, m.events.PY_START, _py_start if mode == "all" else _py_start_reach)
+        if mode == "all":
+            m.register_callback(tool, m.events.JUMP, _jump)
         m.set_events(tool, m.events.PY_START)
         mon["M2"] = {"attached": True, "mode": mode}
     except Exception as e:
